@@ -125,7 +125,7 @@ func (g *G) BuiltinCall(d int) *gen.Node {
 	case "xml":
 		return gen.NCall("xml", g.KeyArg(), lit([]string{"/a/b", "//b/@id", "/a/text()", "(", "", "/a[", "//*"}), g.KeyArg())
 	case "datetime":
-		return gen.NCall("datetime", g.KeyArg(), lit([]string{"s", "ms", "us", ""}), lit([]string{"RFC3339", "ANSIC", "Kitchen", "nope", ""}))
+		return gen.NCall("datetime", g.KeyArg(), lit([]string{"s", "ms", "us", "", "S", "MS", "Ms", "mS", "ns"}), lit([]string{"RFC3339", "ANSIC", "Kitchen", "nope", "", "rfc3339", "RFC822Z", "StampNano"}))
 	case "default_time":
 		if opt() {
 			return gen.NCall("default_time", g.KeyArg(), lit([]string{"+8", "-3:30", "Asia/Shanghai", "UTC", "CST", "+99", "Nowhere/City", ""}))
